@@ -298,6 +298,30 @@ def enum_cases(cls):
 
                 yield {"family": "setop", "cls": cls, "lens": list(lens), "op": op}, thunk
 
+    # (b2) a set operation as operand of a set operation: (q0 op q1) op2 (q2 op q3), q0 op2 (q1 op q2)
+    for shape in ("right_nested", "both_nested"):
+        for lens in itertools.product((1, 2), repeat=4 if shape == "both_nested" else 3):
+            for op in ("union", "intersect"):
+                def thunk(lens=lens, op=op, shape=shape):
+                    qs = [Q.from_(t).select(*[t.field("c%d" % i) for i in range(n)]) for n in lens]
+                    try:
+                        if shape == "right_nested":
+                            so = getattr(qs[0], op)(getattr(qs[1], "union_all")(qs[2]))
+                        else:
+                            so = getattr(getattr(qs[0], "union_all")(qs[1]), op)(getattr(qs[2], "union_all")(qs[3]))
+                    except Exception as e:
+                        return [(mksig("setop_nested", "build_raises", type(e).__name__), "building %s of set operations raised %r" % (op, e))]
+                    r = render_outcome(so, cls)
+                    valid = len(set(lens)) == 1
+                    if valid and r[0] == "raised":
+                        return [(mksig("setop_nested", "false_rejection", r[1]), "%s with a set operation as operand (select lists %r, %s) raised %s" % (op, lens, shape, r[1]))]
+                    if not valid and (r[0] == "ok" or r[1] != "SetOperationException"):
+                        return [(mksig("setop_nested", "missed" if r[0] == "ok" else "wrong_type:" + r[1]), "%s with a set operation as operand over select lists %r (%s) gave %r" % (
+                            op, lens, shape, r[1] if r[0] == "raised" else r[1][:160]))]
+                    return []
+
+                yield {"family": "setop_nested", "cls": cls, "lens": list(lens), "op": op, "shape": shape}, thunk
+
     # (c) CASE
     for n in (0, 1, 2):
         for with_else in (False, True):
